@@ -185,14 +185,14 @@ def explore_flow(S, K, want=('C04', 'C05', 'C06')):
                 ctx.witness('flow with hash')
         return body
 
+    tasks = []
     for k in range(0, K + 1):
         for combo in sequences(k):
-            ob, ex = S.explore('flow[%s]' % ','.join(combo), 'convert_flow_like_iter over children %r with arbitrary producer results' % (combo,),
-                               make_body(combo), bounds=dict(children=k))
-            for lab, mdl, info in ex.violations:
-                found.append((lab, info))
-            if ob.status.startswith('inconclusive'):
-                return found
+            tasks.append(('flow[%s]' % ','.join(combo), 'convert_flow_like_iter over children %r with arbitrary producer results' % (combo,),
+                          make_body(combo), dict(children=k)))
+    for ob, viol in S.explore_batch(tasks):
+        for lab, mdl, info in viol:
+            found.append((lab, info))
     return found
 
 
